@@ -150,7 +150,9 @@ def main(tier):
     pd = quiet_pydrex()
     rng = np.random.default_rng(SEED)
     order = rng.permutation(len(cases))
-    take = order[:200] if quick else order
+    take = list(order[:200] if quick else order)
+    longs = [i for i, cs in enumerate(cases) if cs["kind"] == "long"]
+    take = (longs[:2] if quick else longs) + [i for i in take if cases[int(i)]["kind"] != "long"]
     events, meta = [], {}
     fams = {}
     for j, ci in enumerate(take):
@@ -161,12 +163,14 @@ def main(tier):
         ua = (j % 7 == 3)
         rate = 1.0
         st0 = case["steps"][0]
-        if case["kind"] == "single" and st0["T"] == [9, 200] and st0["g"]["via"] == "const":
+        if case["kind"] == "long":
+            parts = 1   # the whole interval in ONE update call
+        elif case["kind"] == "single" and st0["T"] == [9, 200] and st0["g"]["via"] == "const":
             # short history as 50 very short calls at extreme rate factors (laboratory 1e3, geological 1e-15)
             parts, rate = 50, [1e3, 1e-15, 1.0][j % 3]
         start = len(events)
         run_case(pd, case, cfg, parts, asm, events, tid=j, use_update_all=ua, rate=rate)
-        fam = case["steps"][0]["fam"] + ("/" + case["steps"][0]["g"]["via"]) + ("/seq" if case["kind"] == "sequence" else "")
+        fam = case["steps"][0]["fam"] + ("/" + case["steps"][0]["g"]["via"]) + ("/seq" if case["kind"] == "sequence" else "") + ("/long" if case["kind"] == "long" else "")
         fams[fam] = fams.get(fam, 0) + 1
         for e in events[start:]:
             meta[e["id"]] = dict(kind="closed-form", family=fam, config=list(cfg), parts=parts, update_all=ua, asm=asm[0], case_index=int(ci), rate=rate)
